@@ -597,8 +597,12 @@ fn generate_key_id(
         let mut id_keys_map = { dbs.id_keys_map.write().unwrap() };
         keys_map.insert(key.clone(), id);
         id_keys_map.insert(id, key.to_string());
+        #[cfg(nun_verif)]
+        crate::verif::crash_point("keyid.registered");
         log::debug!("Key {}, id {}", key, id);
         invalidate_oplog(invalidate_stream, dbs).unwrap();
+        #[cfg(nun_verif)]
+        crate::verif::crash_point("flag.invalidate.write");
         id
     }
 }
@@ -1131,6 +1135,17 @@ fn start_replication(
     is_primary: bool,
     dbs: &Arc<Databases>,
 ) {
+    #[cfg(nun_verif)]
+    let mut command_receiver = match crate::verif::try_link(
+        &replicate_address,
+        command_receiver,
+        &tcp_addr,
+        is_primary,
+        dbs,
+    ) {
+        Some(receiver) => receiver,
+        None => return,
+    };
     log::info!(
         "replicating to tcp client in the addr: {}",
         replicate_address
